@@ -2,11 +2,12 @@
    ExtrOcamlBasic only (bool, option, list, prod, unit -> OCaml natives); N, positive, nat, Z stay
    extracted datatypes; no Extract Constant / Extract Inductive of our own. *)
 Require Import Coq.extraction.Extraction Coq.extraction.ExtrOcamlBasic.
-Require Import Pearl.Base.Prelude Pearl.Base.LE Pearl.Base.AHash Pearl.Filter.Bloom.
+Require Import Pearl.Base.Prelude Pearl.Base.LE Pearl.Base.AHash Pearl.Filter.Bloom Pearl.Storage.Model.
 Extraction Language OCaml.
 Set Extraction KeepSingleton.
 Extraction "model.ml"
   le_bytes le_val bloom_hash
   bv_new bv_get bv_set bv_or
   bloom_new bloom_add bloom_contains_in_memory bloom_contains_fast bloom_to_raw bloom_contains_in_file
-  bloom_contains bloom_merge bloom_offload bloom_clear.
+  bloom_contains bloom_merge bloom_offload bloom_clear
+  init_storage step step_q.
